@@ -332,6 +332,23 @@ def scenEvCross (ps obs : String) : Verdict :=
       | none => .bad "mask"
   | none => .bad "parse"
 
+/-- `ev_xenc <event>`: which of the sixteen decoders accept the encoding of the event -/
+def scenEvXenc (es obs : String) : Verdict :=
+  match parseEvent es with
+  | none => .bad "parse"
+  | some e =>
+    let p := encode ⟨0, 0, 0⟩ e
+    let mask := Kind.all.foldl (fun acc k => if (decode k p).isOk then acc + 2 ^ kindIdx k else acc) 0
+    let s := hexNat 4 mask
+    if s == obs then .ok
+    else match parseHexNat obs with
+      | some im =>
+        let others := (List.range 16).filter fun i => i != kindIdx e.kind && im / 2 ^ i % 2 == 1
+        if !others.isEmpty then .prop "C12" "the encoding of an event of one kind is accepted by another kind's decoder" s
+        else if decide e.WF then .prop "C03" "the encoding of an event is not accepted by its own decoder" s
+        else .corr s
+      | none => if obs == "panic" then .prop "C03" "encoder panicked" s else .bad "mask"
+
 /-! ## receivers -/
 
 /-- results of the calls without the "nothing"s and without the `@remaining` suffix -/
@@ -603,6 +620,7 @@ def judge (inp obs : String) : Verdict :=
   | ["ev_rt", e] => scenEvRt e obs
   | ["ev_dec", k, p] => scenEvDec k p obs
   | ["ev_cross", p] => scenEvCross p obs
+  | ["ev_xenc", e] => scenEvXenc e obs
   | "rx" :: link :: items :: _ => scenRx link items obs
   | "rxh" :: link :: items :: _ => scenRxh link items obs
   | "tx" :: rest => scenTx rest obs
